@@ -153,10 +153,9 @@ def hOutgoingCalls (st : Index) (f : Path) (name : String) : Option (List (CallI
                 detail := fixtureDetail dd },
               (st.parameterRange f d.line dep).getD sel)))
 
-/-- `textDocument/inlayHint` over internal lines `[startLine, endLine]`; the inner `none` is a
-    PANIC in `parameter_has_annotation` (the server process dies). -/
+/-- `textDocument/inlayHint` over internal lines `[startLine, endLine]`. -/
 def hInlayHints (st : Index) (f : Path) (startLine endLine : Nat) :
-    Option (Option (List (Nat × Nat × String))) × Index :=
+    Option (List (Nat × Nat × String)) × Index :=
   match alookup st.usages f with
   | none => (none, st)
   | some usages =>
@@ -165,21 +164,15 @@ def hInlayHints (st : Index) (f : Path) (startLine endLine : Nat) :
       | none => []
     let (avail, st) := st.availableSt f
     let typed := avail.filterMap (fun d => d.returnType.map (fun rt => (d.name, rt)))
-    if typed.isEmpty then (some (some []), st) else
+    if typed.isEmpty then (some [], st) else
     -- `HashMap::collect`: a later entry of the same name overrides an earlier one
     let lookup (n : String) : Option String := (typed.reverse.find? (·.1 == n)).map (·.2)
-    let res := (usages.filter (fun u => startLine ≤ u.line && u.line ≤ endLine)).foldl
-      (fun (acc : Option (List (Nat × Nat × String))) u =>
-        match acc with
-        | none => none
-        | some l =>
-          match lookup u.name with
-          | none => some l
-          | some rt =>
-            match parameterHasAnnotation lines u.line u.endChar with
-            | none => none
-            | some true => some l
-            | some false => some (l ++ [(toLsp u.line, u.endChar, ": " ++ rt)])) (some [])
+    let res := (usages.filter (fun u => startLine ≤ u.line && u.line ≤ endLine)).filterMap (fun u =>
+      match lookup u.name with
+      | none => none
+      | some rt =>
+        if parameterHasAnnotation lines u.line u.endChar then none
+        else some (toLsp u.line, u.endChar, ": " ++ rt))
     (some res, st)
 
 structure Diag where
